@@ -22,3 +22,5 @@ register("C14", lean_modules=["GtModel.Props.C14"], gen=_gt.gen_cli_tables, stre
          partial="argparse's parsing of argv and the byte-level agreement with the library are checked by the cli stream on the real code, not proved",
          assumptions=["mimetypes.guess_type is an oracle (its answer for each file name is recorded and shipped to the model)"],
          trusted=["file-type tables regenerated from /repo by harness/gentables.py"])
+
+register("C13", lean_modules=[], theorems=[], streams=["matrix"])
